@@ -279,7 +279,9 @@ class TLSTransportWrapper:
             data: Plaintext data to encrypt and send.
         """
         if self.tls_protocol.tls_conn:
-            self.tls_protocol.tls_conn.send(data)
+            # send() is a single SSL_write and stops after one TLS record
+            # (16384 bytes); sendall() loops until everything is written
+            self.tls_protocol.tls_conn.sendall(data)
             self.tls_protocol._flush_outgoing()
 
     def close(self) -> None:
